@@ -27,6 +27,7 @@ type Lockset struct {
 	funcs []*ir.Func
 	entry map[*ir.Func]LS
 	in    map[*ir.Func]map[*cfgx.Node]LS // state before the node executes
+	viewOf func(*ir.Func) *ir.Func
 }
 
 // lockOp classifies a call as Lock (+1), Unlock (-1) or neither on the mutex.
@@ -51,7 +52,13 @@ func (l *Lockset) lockOp(f *ir.Func, call ir.Call) int {
 // Exported methods start unheld; unexported ones start with the join of the
 // states at their call sites inside funcs.
 func NewLockset(p *ir.Prog, mutex *types.Var, methods []*ir.Func) *Lockset {
-	l := &Lockset{P: p, Mutex: mutex, entry: map[*ir.Func]LS{}, in: map[*ir.Func]map[*cfgx.Node]LS{}}
+	return NewLocksetV(p, mutex, methods, nil)
+}
+
+// NewLocksetV is NewLockset over expanded views: viewOf maps a loaded callee to
+// the view that stands for it in methods.
+func NewLocksetV(p *ir.Prog, mutex *types.Var, methods []*ir.Func, viewOf func(*ir.Func) *ir.Func) *Lockset {
+	l := &Lockset{P: p, Mutex: mutex, entry: map[*ir.Func]LS{}, in: map[*ir.Func]map[*cfgx.Node]LS{}, viewOf: viewOf}
 	for _, f := range methods {
 		l.funcs = append(l.funcs, f)
 		l.funcs = append(l.funcs, f.Lits...)
@@ -83,7 +90,11 @@ func NewLockset(p *ir.Prog, mutex *types.Var, methods []*ir.Func) *Lockset {
 				cur := st[n]
 				_, isGo := n.AST.(*ast.GoStmt)
 				for _, call := range f.NodeCalls(n) {
-					if callee := l.P.FuncOf(call.Fn); callee != nil && l.has(callee) && !(callee.Lit == nil && exported(callee)) {
+					callee := l.P.FuncOf(call.Fn)
+					if callee != nil && l.viewOf != nil {
+						callee = l.viewOf(callee)
+					}
+					if callee != nil && l.has(callee) && !(callee.Lit == nil && exported(callee)) {
 						v := cur
 						if isGo {
 							v = lsUnheld
